@@ -153,8 +153,9 @@ class VSeq(Val):
 
     def with_kind(self, kind):
         s = VSeq(self.src_len, self.elem, self.pred, kind, self._length, self.cls_id)
-        if hasattr(self, 'sort_perm'):
-            s.sort_perm = self.sort_perm
+        for extra in ('sort_perm', 'csv_model'):
+            if hasattr(self, extra):
+                setattr(s, extra, getattr(self, extra))
         # share lazily-created length
         if self._length is None:
             _ = self.length
